@@ -289,7 +289,7 @@ theorem strlen_terminated (l : List Char) : Igris.C06.strlen (l ++ [NUL]) ≠ no
       | none => exact absurd h ih
       | some n => simp
 
-theorem good_nonFinite_aux (cfg : Cfg) (sgn txt : List Char) (width : Int) (o : Ops) (ho : o.prec = false)
+theorem good_nonFinite_aux (cfg : Cfg) (sgn txt : List Char) (width : Int) (o : Ops) (ho : o.prec = false) (hchr : o.chr = false)
     (h : sgn.length + 4 ≤ cfg.size) :
     Good (fun _ => True)
       (if sgn.length + 4 > cfg.size then (.error .fault : M (List Char × Int)) else
@@ -303,7 +303,7 @@ theorem good_nonFinite_aux (cfg : Cfg) (sgn txt : List Char) (width : Int) (o : 
     · rename_i h2
       exfalso
       unfold Igris.C06.printS at h2
-      simp only [ho, Bool.false_eq_true, if_false] at h2
+      simp only [ho, hchr, Bool.false_eq_true, if_false] at h2
       split at h2
       · rename_i h3
         exact strlen_terminated _ h3
@@ -312,7 +312,7 @@ theorem good_nonFinite_aux (cfg : Cfg) (sgn txt : List Char) (width : Int) (o : 
 theorem good_nonFinite {α : Type} (A : Arith α) (cfg : Cfg) (hs : 8 ≤ cfg.size) (r : α) (nanNeg : Bool) (width : Int) (ops : Ops) :
     Good (fun _ => True) (nonFinite A cfg r nanNeg width ops) := by
   unfold nonFinite
-  refine good_nonFinite_aux cfg _ _ width _ rfl ?_
+  refine good_nonFinite_aux cfg _ _ width _ rfl rfl ?_
   split <;> (try split) <;> (try split) <;> (try split) <;> (try simp) <;> omega
 
 theorem good_printF {α : Type} (A : Arith α) (cfg : Cfg) (hr : cfg.repaired = true) (hfit : cfg.Fits) (fuel : Nat)
@@ -371,7 +371,7 @@ theorem nonFinite_aux_count (cfg : Cfg) (sgn txt : List Char) (width : Int) (o :
       exact Igris.C06.printS_count hp
 
 
-theorem nonFinite_aux_total (cfg : Cfg) (sgn txt : List Char) (width : Int) (o : Ops) (ho : o.prec = false)
+theorem nonFinite_aux_total (cfg : Cfg) (sgn txt : List Char) (width : Int) (o : Ops) (ho : o.prec = false) (hchr : o.chr = false)
     (h : sgn.length + 4 ≤ cfg.size) :
     ∃ v, (if sgn.length + 4 > cfg.size then (.error .fault : M (List Char × Int)) else
         match Igris.C06.printS (sgn ++ txt ++ [NUL]) width 0 o with
@@ -384,7 +384,7 @@ theorem nonFinite_aux_total (cfg : Cfg) (sgn txt : List Char) (width : Int) (o :
   | none =>
     exfalso
     unfold Igris.C06.printS at hp
-    simp only [ho, Bool.false_eq_true, if_false] at hp
+    simp only [ho, hchr, Bool.false_eq_true, if_false] at hp
     split at hp
     · rename_i h3
       exact strlen_terminated _ h3
@@ -393,7 +393,7 @@ theorem nonFinite_aux_total (cfg : Cfg) (sgn txt : List Char) (width : Int) (o :
 theorem nonFinite_total {α : Type} (A : Arith α) (cfg : Cfg) (hs : 8 ≤ cfg.size) (r : α) (nanNeg : Bool) (width : Int) (ops : Ops) :
     ∃ v, nonFinite A cfg r nanNeg width ops = .ok v := by
   unfold nonFinite
-  refine nonFinite_aux_total cfg _ _ width _ rfl ?_
+  refine nonFinite_aux_total cfg _ _ width _ rfl rfl ?_
   split <;> (try split) <;> (try split) <;> (try split) <;> (try simp) <;> omega
 
 /-- `while (ip >= base)` of the original code on +inf: `ip` stays +inf -/
